@@ -38,6 +38,10 @@ def gen_case(rng, idx, tier):
     return c
 
 
+def on_timeout(case, frames, timeout_s):
+    return poolcase.on_timeout(case, frames, timeout_s)
+
+
 def run_case(case):
     if case.get("lane") == "real":
         from .. import realpool_lanes
